@@ -80,14 +80,19 @@ Definition occurrence_vars (p : prog) : option (list nat) :=
   end.
 
 (* ---- the declarative resolver --------------------------------------------------------------- *)
+(* Spec scopes are named (n, aux): n is the running number of the construct that opens the scope
+   (the counter advances exactly when the parser calls enterScope, so that n is also the index of
+   the parser's Scope), aux = true for the auxiliary scope some constructs have under ECMAScript
+   in front of their main scope: the name of a function/class expression, the let/const of a loop
+   head. *)
 Inductive target :=
-| TGlobal (x : Z)                 (* bound nowhere *)
-| TBind (sid : nat) (x : Z).      (* the declaration of x in the (spec) scope sid *)
+| TGlobal (x : Z)                              (* bound nowhere *)
+| TBind (sid : nat) (aux : bool) (x : Z).      (* the declaration of x in the spec scope (sid, aux) *)
 
 Definition target_eqb (a b : target) : bool :=
   match a, b with
   | TGlobal x, TGlobal y => x =? y
-  | TBind s x, TBind t y => Nat.eqb s t && (x =? y)
+  | TBind s a x, TBind t b y => Nat.eqb s t && Bool.eqb a b && (x =? y)
   | _, _ => false
   end.
 
@@ -129,77 +134,73 @@ Fixpoint headdecls (p : prog) : list Z :=
 
 Definition mem (x : Z) (l : list Z) : bool := existsb (Z.eqb x) l.
 
-Definition env := list (nat * list Z).
+Definition env := list (nat * bool * list Z).
 
 Fixpoint lookup (e : env) (x : Z) : target :=
   match e with
   | [] => TGlobal x
-  | (s, names) :: t => if mem x names then TBind s x else lookup t x
+  | (s, a, names) :: t => if mem x names then TBind s a x else lookup t x
   end.
 
-(* resolve e fs cur n p = (targets of the occurrences of p in source order, next free scope id)
+(* resolve e fs cur n p = (targets of the occurrences of p in source order, next scope number)
    e: visible scopes innermost first; fs: the enclosing function scope (where var/function go);
-   cur: the scope lexical/parameter/catch declarations of this list belong to *)
-Fixpoint resolve (e : env) (fs cur n : nat) (p : prog) : list target * nat :=
+   cur: the (main) scope lexical / parameter / catch declarations of this list belong to *)
+Fixpoint resolve (e : env) (fs cur : nat) (ca : bool) (n : nat) (p : prog) : list target * nat :=
   match p with
   | Done => ([], n)
   | Ref x k | PRef x k =>
-      let '(r, n1) := resolve e fs cur n k in (lookup e x :: r, n1)
+      let '(r, n1) := resolve e fs cur ca n k in (lookup e x :: r, n1)
   | Decl d x k =>
-      let '(r, n1) := resolve e fs cur n k in
-      ((if is_var d then TBind fs x else TBind cur x) :: r, n1)
+      let '(r, n1) := resolve e fs cur ca n k in
+      ((if is_var d then TBind fs false x else TBind cur ca x) :: r, n1)
   | Block b k =>
-      let '(rb, n1) := resolve ((n, lexdecls b) :: e) fs n (S n) b in
-      let '(rk, n2) := resolve e fs cur n1 k in
+      let '(rb, n1) := resolve ((n, false, lexdecls b) :: e) fs n false (S n) b in
+      let '(rk, n2) := resolve e fs cur ca n1 k in
       (rb ++ rk, n2)
   | Func nm ps b k =>
-      (* scope n: the expression name; scope n+1: parameters, var- and lexically declared names of
-         the body; default values see the parameters but not the body's declarations *)
-      let e1 := match nm with Some f => (n, [f]) :: e | None => e end in
-      let f := S n in
-      let '(rp, n1) := resolve ((f, headdecls ps) :: e1) f f (S f) ps in
-      let '(rb, n2) := resolve ((f, headdecls ps ++ vardecls b ++ lexdecls b) :: e1) f f n1 b in
-      let '(rk, n3) := resolve e fs cur n2 k in
-      ((match nm with Some x => [TBind n x] | None => [] end) ++ rp ++ rb ++ rk, n3)
+      (* (n, true): the expression name; (n, false): parameters, var- and lexically declared names
+         of the body; default values see the parameters but not the body's declarations *)
+      let e1 := match nm with Some f => (n, true, [f]) :: e | None => e end in
+      let '(rp, n1) := resolve ((n, false, headdecls ps) :: e1) n n false (S n) ps in
+      let '(rb, n2) := resolve ((n, false, headdecls ps ++ vardecls b ++ lexdecls b) :: e1) n n false n1 b in
+      let '(rk, n3) := resolve e fs cur ca n2 k in
+      ((match nm with Some x => [TBind n true x] | None => [] end) ++ rp ++ rb ++ rk, n3)
   | Arrow ps b k =>
-      let f := n in
-      let '(rp, n1) := resolve ((f, headdecls ps) :: e) f f (S f) ps in
-      let '(rb, n2) := resolve ((f, headdecls ps ++ vardecls b ++ lexdecls b) :: e) f f n1 b in
-      let '(rk, n3) := resolve e fs cur n2 k in
+      let '(rp, n1) := resolve ((n, false, headdecls ps) :: e) n n false (S n) ps in
+      let '(rb, n2) := resolve ((n, false, headdecls ps ++ vardecls b ++ lexdecls b) :: e) n n false n1 b in
+      let '(rk, n3) := resolve e fs cur ca n2 k in
       (rp ++ rb ++ rk, n3)
   | ArrowId x b k =>
-      let f := n in
-      let '(rb, n1) := resolve ((f, [x] ++ vardecls b ++ lexdecls b) :: e) f f (S f) b in
-      let '(rk, n2) := resolve e fs cur n1 k in
-      (TBind f x :: rb ++ rk, n2)
+      let '(rb, n1) := resolve ((n, false, [x] ++ vardecls b ++ lexdecls b) :: e) n n false (S n) b in
+      let '(rk, n2) := resolve e fs cur ca n1 k in
+      (TBind n false x :: rb ++ rk, n2)
   | Paren hd k =>
-      (* not a scope: every identifier is a reference of the surrounding scope *)
-      let '(rh, n1) := resolve e fs cur n hd in
-      let '(rk, n2) := resolve e fs cur n1 k in
+      (* not a scope under ECMAScript (the parser opens a provisional one: number n is consumed):
+         every identifier is a reference of the surrounding scope *)
+      let '(rh, n1) := resolve e fs cur ca (S n) hd in
+      let '(rk, n2) := resolve e fs cur ca n1 k in
       (rh ++ rk, n2)
   | For hd b k =>
-      (* scope n: the loop head's let/const; scope n+1: the body block *)
-      let h := n in
-      let '(rh, n1) := resolve ((h, lexdecls hd) :: e) fs h (S (S n)) hd in
-      let '(rb, n2) := resolve ((S n, lexdecls b) :: (h, lexdecls hd) :: e) fs (S n) n1 b in
-      let '(rk, n3) := resolve e fs cur n2 k in
+      (* (n, true): the loop head's let/const; (n, false): the body block *)
+      let '(rh, n1) := resolve ((n, true, lexdecls hd) :: e) fs n true (S n) hd in
+      let '(rb, n2) := resolve ((n, false, lexdecls b) :: (n, true, lexdecls hd) :: e) fs n false n1 b in
+      let '(rk, n3) := resolve e fs cur ca n2 k in
       (rh ++ rb ++ rk, n3)
   | Catch hd b k =>
-      let c := n in
-      let '(rh, n1) := resolve ((c, headdecls hd) :: e) fs c (S n) hd in
-      let '(rb, n2) := resolve ((c, headdecls hd ++ lexdecls b) :: e) fs c n1 b in
-      let '(rk, n3) := resolve e fs cur n2 k in
+      let '(rh, n1) := resolve ((n, false, headdecls hd) :: e) fs n false (S n) hd in
+      let '(rb, n2) := resolve ((n, false, headdecls hd ++ lexdecls b) :: e) fs n false n1 b in
+      let '(rk, n3) := resolve e fs cur ca n2 k in
       (rh ++ rb ++ rk, n3)
   | Class nm ms k =>
-      let e1 := match nm with Some c => (n, [c]) :: e | None => e end in
-      let '(rm, n1) := resolve e1 fs (S n) (S (S n)) ms in
-      let '(rk, n2) := resolve e fs cur n1 k in
-      ((match nm with Some c => [TBind n c] | None => [] end) ++ rm ++ rk, n2)
+      let e1 := match nm with Some c => (n, true, [c]) :: e | None => e end in
+      let '(rm, n1) := resolve e1 fs n false (S n) ms in
+      let '(rk, n2) := resolve e fs cur ca n1 k in
+      ((match nm with Some c => [TBind n true c] | None => [] end) ++ rm ++ rk, n2)
   end.
 
-(* the module scope is spec scope 0 *)
+(* the module scope is spec scope (0, false) *)
 Definition spec_resolve (p : prog) : list target :=
-  fst (resolve [(O, vardecls p ++ lexdecls p)] O O 1 p).
+  fst (resolve [(O, false, vardecls p ++ lexdecls p)] O O false 1 p).
 
 (* ---- early errors: the programs the property quantifies over -------------------------------- *)
 Fixpoint nodupb (l : list Z) : bool :=
